@@ -13,7 +13,13 @@
 #include <vector>
 
 static int g_rank = 0, g_world = 1, g_fail = 0, g_ok = 0;
-static void report(bool ok, std::string const& what) { if (g_rank != 0) return; if (ok) ++g_ok; else { ++g_fail; std::printf("FAIL C04 %s\n", what.c_str()); } }
+static void report(bool ok, std::string const& what, bool also_c10 = false)
+{
+    if (g_rank != 0) return;
+    if (ok) { ++g_ok; return; }
+    ++g_fail; std::printf("FAIL C04 %s\n", what.c_str());
+    if (also_c10) std::printf("FAIL C10 real MPI: %s\n", what.c_str());
+}
 static std::uint64_t mix(std::uint64_t x) { x += 0x9e3779b97f4a7c15ULL; x = (x ^ (x >> 30)) * 0xbf58476d1ce4e5b9ULL; x = (x ^ (x >> 27)) * 0x94d049bb133111ebULL; return x ^ (x >> 31); }
 
 static std::vector<double> g_points;     // coordinates of every point this process evaluated, in call order
@@ -77,12 +83,20 @@ template <typename T, typename Run, typename Serial> void compare(char const* wh
     if (all_iterations || chk.results().size() <= 1)
     {
         std::ostringstream g1, g2; g1 << chk.generator(); g2 << ser.generator();
-        report(g1.str() == g2.str(), std::string(what) + ": stored generator differs from the serial run");
+        report(g1.str() == g2.str(), std::string(what) + ": stored generator differs from the serial run", true);
     }
 }
 
-template <typename T> void all_for(char const* tname, std::uint64_t seed)
+// engines: the library must treat every engine through the standard interface only - standard ones, and instantiations of the
+// standard templates that are not among the nine typedefs (increment != 0, moduli that are not powers of two)
+typedef std::linear_congruential_engine<std::uint32_t, 1103515245u, 12345u, 2147483648u> lcg_ansi_c;          // c != 0, m = 2^31
+typedef std::linear_congruential_engine<std::uint64_t, 1588635695ull, 0ull, 4294967291ull> lcg_lecuyer;        // m = 2^32 - 5
+typedef std::linear_congruential_engine<std::uint32_t, 69069u, 7u, 16777213u> lcg_m24;                          // c != 0, m = 2^24 - 3
+typedef std::linear_congruential_engine<std::uint64_t, 6364136223846793005ull, 1442695040888963407ull, 0ull> lcg_knuth64;   // c != 0, m = 2^64
+
+template <typename T, typename E = std::mt19937> void all_for(char const* tname0, std::uint64_t seed, char const* ename = "mt19937")
 {
+    std::string const tname_s = std::string(tname0) + ", " + ename; char const* tname = tname_s.c_str();
     std::size_t const d = 1 + mix(seed + 1) % 3;
     std::vector<std::size_t> const pool = {0, 1, 2, static_cast<std::size_t>(g_world - 1), static_cast<std::size_t>(g_world), static_cast<std::size_t>(g_world + 1), 37, 100};
     std::vector<std::size_t> calls; for (int i = 0; i != 3; ++i) calls.push_back(pool[mix(seed + 10 + i) % pool.size()]);
@@ -90,7 +104,7 @@ template <typename T> void all_for(char const* tname, std::uint64_t seed)
     unsigned const s = static_cast<unsigned>(mix(seed + 5));
     {
         auto f = [](hep::mc_point<T> const& p) { return poly<T>(p); };
-        auto c0 = hep::make_plain_chkpt<T>(std::mt19937(s));
+        auto c0 = hep::make_plain_chkpt<T>(E(static_cast<typename E::result_type>(s % 100000u + 1u)));
         compare<T>(("mpi_plain " + tn).c_str(), calls, d, true,
             [&]() { return hep::mpi_plain(MPI_COMM_WORLD, hep::make_integrand<T>(f, d), calls, c0, hep::mpi_callback<decltype(c0)>(hep::callback_mode::silent)); },
             [&]() { return hep::plain(hep::make_integrand<T>(f, d), calls, c0, hep::callback<decltype(c0)>(hep::callback_mode::silent)); });
@@ -98,7 +112,7 @@ template <typename T> void all_for(char const* tname, std::uint64_t seed)
     std::vector<std::size_t> const one = {calls[0] ? calls[0] : 5};
     {
         auto f = [](hep::vegas_point<T> const& p) { return poly<T>(p); };
-        auto c0 = hep::make_vegas_chkpt<T>(8, T(1.5), std::mt19937(s));
+        auto c0 = hep::make_vegas_chkpt<T>(8, T(1.5), E(static_cast<typename E::result_type>(s % 100000u + 1u)));
         compare<T>(("mpi_vegas " + tn).c_str(), one, d, true,
             [&]() { return hep::mpi_vegas(MPI_COMM_WORLD, hep::make_integrand<T>(f, d), one, c0, hep::mpi_callback<decltype(c0)>(hep::callback_mode::silent)); },
             [&]() { return hep::vegas(hep::make_integrand<T>(f, d), one, c0, hep::callback<decltype(c0)>(hep::callback_mode::silent)); });
@@ -109,7 +123,7 @@ template <typename T> void all_for(char const* tname, std::uint64_t seed)
     }
     {
         auto f = [](hep::multi_channel_point<T> const& p) { return poly<T>(p); };
-        auto c0 = hep::make_multi_channel_chkpt<T>(T(), T(0.25), std::mt19937(s));
+        auto c0 = hep::make_multi_channel_chkpt<T>(T(), T(0.25), E(static_cast<typename E::result_type>(s % 100000u + 1u)));
         compare<T>(("mpi_multi_channel " + tn).c_str(), one, d, true,
             [&]() { return hep::mpi_multi_channel(MPI_COMM_WORLD, hep::make_multi_channel_integrand<T>(f, d, IdMap<T>(), d, 2), one, c0, hep::mpi_callback<decltype(c0)>(hep::callback_mode::silent)); },
             [&]() { return hep::multi_channel(hep::make_multi_channel_integrand<T>(f, d, IdMap<T>(), d, 2), one, c0, hep::callback<decltype(c0)>(hep::callback_mode::silent)); });
@@ -122,6 +136,15 @@ int main(int argc, char** argv)
     MPI_Comm_rank(MPI_COMM_WORLD, &g_rank); MPI_Comm_size(MPI_COMM_WORLD, &g_world);
     std::uint64_t const seed = argc > 1 ? std::strtoull(argv[1], nullptr, 10) : 1;
     for (int k = 0; k != 3; ++k) { all_for<double>("double", seed * 100 + k); all_for<float>("float", seed * 100 + 50 + k); }
+    all_for<double, lcg_ansi_c>("double", seed * 100 + 60, "lcg a=1103515245 c=12345 m=2^31");
+    all_for<float, lcg_m24>("float", seed * 100 + 61, "lcg a=69069 c=7 m=2^24-3");
+    all_for<long double, lcg_lecuyer>("long double", seed * 100 + 62, "lcg a=1588635695 c=0 m=2^32-5");
+    all_for<float, lcg_ansi_c>("float", seed * 100 + 63, "lcg a=1103515245 c=12345 m=2^31");
+    all_for<double, lcg_knuth64>("double", seed * 100 + 64, "lcg 64 bit c!=0");
+    all_for<double, std::minstd_rand>("double", seed * 100 + 65, "minstd_rand");
+    all_for<long double, std::ranlux24>("long double", seed * 100 + 66, "ranlux24");
+    all_for<float, std::knuth_b>("float", seed * 100 + 67, "knuth_b");
+    all_for<long double, lcg_m24>("long double", seed * 100 + 68, "lcg a=69069 c=7 m=2^24-3");
     if (g_rank == 0) std::printf("SUMMARY ok=%d fail=%d world=%d\n", g_ok, g_fail, g_world);
     MPI_Finalize();
     return 0;
